@@ -78,13 +78,15 @@ static DSVector randVec(Ctx& c, Gen& gen, int dim, int extra, std::string& js)
    return v;
 }
 
+static thread_local int g_tid = 0;
+static thread_local bool g_threaded = false;              // C18 thread mode: no process-wide watchdog alarms, time limits out of reach
 // ---------------------------------------------------------------- events
 static int createObj(Ctx& c)
 {
    int id = c.nextId++;
    c.objs[id].reset(new SoPlex()); c.noInternal[id] = false; c.modsSinceBasis[id] = 0;
    SoPlex& s = *c.objs[id];
-   s.setIntParam(SoPlex::VERBOSITY, 0);
+   s.setIntParam(SoPlex::VERBOSITY, (envl("VERIF_VERBOSE_T", -1) < 0 || envl("VERIF_VERBOSE_T", -1) == g_tid) ? (int)envl("VERIF_VERBOSITY", 0) : 0);     // debugging only: the progress log goes to stdout
    J ev; ev.s("a", "create").i("o", id);
    emit(c, id, ev);
    return id;
@@ -113,7 +115,7 @@ static std::string dvec(const VectorBase<double>& v) { return jarr(v.dim(), [&](
 
 // g_wellScaled: the LP data of the running workload are small integers (verdict comparisons between different solves of the
 // same LP are only meaningful then: on data spanning 2^-12..2^12 a tolerance-level OPTIMAL and an exact UNBOUNDED can both be right)
-static bool g_wellScaled = true;
+static thread_local bool g_wellScaled = true;
 struct SolveOpts { bool limited = false; bool complete = true; std::string detKey; };
 static std::string paramsDigest(SoPlex& s)
 {
@@ -606,7 +608,7 @@ static void witness(Ctx& c, int o, const LPData& L)
 }
 // core family: the configuration space in which completeness is claimed (see DESIGN.md section 4 C01);
 // exotic = the full product of all algorithmic parameters (soundness only)
-static bool g_exotic = false;
+static thread_local bool g_exotic = false;
 static void fullConfig(Ctx& c, int o)
 {
    static const int corePricer[] = {SoPlex::PRICER_AUTO, SoPlex::PRICER_DANTZIG, SoPlex::PRICER_DEVEX, SoPlex::PRICER_QUICKSTEEP, SoPlex::PRICER_STEEP};
@@ -1266,7 +1268,9 @@ static void exactConfig(Ctx& c, int o, int family)
    setInt(c, o, "SOLVEMODE", SoPlex::SOLVEMODE, SoPlex::SOLVEMODE_RATIONAL);
    setInt(c, o, "CHECKMODE", SoPlex::CHECKMODE, SoPlex::CHECKMODE_RATIONAL);
    setReal(c, o, "FEASTOL", SoPlex::FEASTOL, 0.0); setReal(c, o, "OPTTOL", SoPlex::OPTTOL, 0.0);
-   setReal(c, o, "TIMELIMIT", SoPlex::TIMELIMIT, 20.0);      // a solve that does not decide a <= 12x12 LP in 20 s is reported as undecided
+   // a solve that does not decide a <= 12x12 LP in 20 s is reported as undecided; the default timer measures the CPU time of the
+   // whole PROCESS, which runs K times faster with K busy threads: the thread mode (C18) keeps the limit out of reach
+   setReal(c, o, "TIMELIMIT", SoPlex::TIMELIMIT, g_threaded ? 20000.0 : 20.0);
    if(family == 1) { setInt(c, o, "RATFAC_MINSTALLS", SoPlex::RATFAC_MINSTALLS, 0); setBool(c, o, "ADAPT_TOLS_TO_MULTIPRECISION", SoPlex::ADAPT_TOLS_TO_MULTIPRECISION, true);
                      setBool(c, o, "ITERATIVE_REFINEMENT", SoPlex::ITERATIVE_REFINEMENT, false); }   // exact-pure-boosting.set
    if(family == 2)
@@ -1274,7 +1278,8 @@ static void exactConfig(Ctx& c, int o, int family)
       // random settings of the exact-solver booleans that keep rational reconstruction or factorization enabled
       bool ratrec = c.rng.coin(), ratfac = ratrec ? c.rng.coin() : true;
       setBool(c, o, "RATREC", SoPlex::RATREC, ratrec); setBool(c, o, "RATFAC", SoPlex::RATFAC, ratfac);
-      setBool(c, o, "LIFTING", SoPlex::LIFTING, c.rng.coin()); setBool(c, o, "EQTRANS", SoPlex::EQTRANS, c.rng.coin());
+      // LIFTING corrupts the heap (KF-13); in thread mode (C18) that would damage the other threads' objects as well
+      { bool lift = c.rng.coin(); setBool(c, o, "LIFTING", SoPlex::LIFTING, lift && !g_threaded); } setBool(c, o, "EQTRANS", SoPlex::EQTRANS, c.rng.coin());
       setBool(c, o, "TESTDUALINF", SoPlex::TESTDUALINF, c.rng.coin()); setBool(c, o, "POWERSCALING", SoPlex::POWERSCALING, c.rng.coin());
       setBool(c, o, "RATFACJUMP", SoPlex::RATFACJUMP, c.rng.coin()); setBool(c, o, "RECOVERY_MECHANISM", SoPlex::RECOVERY_MECHANISM, c.rng.coin());
       setInt(c, o, "SIMPLIFIER", SoPlex::SIMPLIFIER, c.rng.coin() ? SoPlex::SIMPLIFIER_OFF : SoPlex::SIMPLIFIER_INTERNAL);
@@ -1359,7 +1364,8 @@ static void wlBinvQ(Ctx& c, int nexec, int len)
    }
 }
 
-static std::string g_tmpdir;
+static thread_local std::string g_tmpdir;
+static void vAlarm(unsigned s) { if(!g_threaded) alarm(s); }
 // ---------------------------------------------------------------- C20: the C interface, mirrored call by call on a C++ object
 // Every step performs the C++ call on the mirror object (an ordinary event, validated by the specification) and then the
 // C call on the C object ("ccall" event: C arguments, C results next to the mirror's results, projection of the C object).
@@ -1758,7 +1764,7 @@ static void wlPresolve(Ctx& c, int nexec, int len)
       for(int round = 0; round < len; round++)
       {
          bool keepbounds = c.rng.coin(); unsigned seed = (unsigned)c.rng.R(0, 1000);
-         static SPxOut quiet; quiet.setVerbosity(SPxOut::ERROR);
+         static thread_local SPxOut quiet; quiet.setVerbosity(SPxOut::ERROR);
          auto simplifyOnce = [&](SPxMainSM<double>& sm, SPxLPBase<double>& work) { sm.setTolerances(tol); sm.setOutstream(quiet); work = lp; work.setTolerances(tol); work.setOutstream(quiet); return (int)sm.simplify(work, 1e9, keepbounds, seed); };
          SPxMainSM<double> sm0; SPxLPBase<double> red; pending() = "SPxMainSM::simplify"; int res = simplifyOnce(sm0, red);
          { J ev; ev.s("a", "simplify").b("keepbounds", keepbounds).i("seed", (long)seed).i("result", res).raw("red", lpJson(red)).q("offset", (res == 0 || res == 4) ? sm0.getObjoffset() : 0.0); T().line(ev.str()); }
@@ -1870,7 +1876,7 @@ static void wlReaders(Ctx& c, int nexec, int len)
          if(c.rng.coin(1, 8)) { std::string cmd = "gzip -f '" + fn + "' 2>/dev/null"; if(system(cmd.c_str()) == 0) { fn += ".gz"; gz = true; } }
          // ---- read
          NameSet rn, cn; pending() = "readFile " + what + " " + sf.ext + (gz ? ".gz" : "") + (rational ? " rational" : " real");
-         alarm(10); bool ret = s.readFile(fn.c_str(), &rn, &cn); alarm(0);
+         vAlarm(10); bool ret = s.readFile(fn.c_str(), &rn, &cn); vAlarm(0);
          c.modsSinceBasis[o] = 1; c.noInternal[o] = false;
          {
             J ev; ev.s("a", "readFile").i("o", o).s("ext", sf.ext).b("gz", gz).b("rational", rational).s("mutation", what).b("ret", ret).i("nRowNames", rn.num()).i("nColNames", cn.num())
@@ -1882,22 +1888,22 @@ static void wlReaders(Ctx& c, int nexec, int len)
          bool tame = true;          // a solve is only judged on LPs without absurd numbers (a reader accepts 1e+5000 as a coefficient)
          for(int j = 0; j < s.numCols() && tame; j++) { tame = std::fabs(s.objReal(j)) < 1e15; DSVector cv; s.getColVectorReal(j, cv); for(int k = 0; k < cv.size(); k++) tame = tame && std::fabs(cv.value(k)) < 1e15 && std::fabs(cv.value(k)) > 1e-15; }
          if(ret && tame && s.numRows() > 0 && s.numCols() > 0 && s.numRows() <= 8 && s.numCols() <= 8 && !rational && c.rng.coin())
-         { setInt(c, o, "ITERLIMIT", SoPlex::ITERLIMIT, 50); SolveOpts so; so.complete = false; so.limited = true; alarm(30); optimize(c, o, so); alarm(0); setInt(c, o, "ITERLIMIT", SoPlex::ITERLIMIT, -1); }
+         { setInt(c, o, "ITERLIMIT", SoPlex::ITERLIMIT, 50); SolveOpts so; so.complete = false; so.limited = true; vAlarm(30); optimize(c, o, so); vAlarm(0); setInt(c, o, "ITERLIMIT", SoPlex::ITERLIMIT, -1); }
          if(c.rng.coin(1, 2))
          {
             pending() = "clearLPReal after read"; s.clearLPReal(); modEvent(c, o, "clearLP", "{}");
             if(!rational)
             {
                LPData L = genWitnessed(c.rng, 4, c.rng.coin(3, 4) ? "OPT" : "INF", 0); loadLP(c, o, L, true); witness(c, o, L);
-               if(s.numRows() > 0 && s.numCols() > 0) { SolveOpts so; so.complete = true; alarm(30); optimize(c, o, so); alarm(0); }
+               if(s.numRows() > 0 && s.numCols() > 0) { SolveOpts so; so.complete = true; vAlarm(30); optimize(c, o, so); vAlarm(0); }
                // a basis file for this LP: unchanged or mutated
                if(s.hasBasis() && c.rng.coin())
                {
                   std::string bf = g_tmpdir + "/b" + std::to_string(e) + "_" + std::to_string(step) + ".bas"; s.writeBasisFile(bf.c_str());
                   std::ifstream f(bf, std::ios::binary); std::stringstream ss; ss << f.rdbuf(); std::string bt = ss.str(), bw = "none"; if(c.rng.coin(3, 4)) bt = mutate(c.rng, bt, bw); writeText(bf, bt);
-                  pending() = "readBasisFile " + bw; alarm(10); bool br = s.readBasisFile(bf.c_str()); alarm(0); remove(bf.c_str());
+                  pending() = "readBasisFile " + bw; vAlarm(10); bool br = s.readBasisFile(bf.c_str()); vAlarm(0); remove(bf.c_str());
                   J ev; ev.s("a", "readBasisFuzz").i("o", o).s("mutation", bw).b("ret", br); emit(c, o, ev); c.modsSinceBasis[o] = 1;
-                  SolveOpts so; so.complete = true; alarm(30); optimize(c, o, so); alarm(0);
+                  SolveOpts so; so.complete = true; vAlarm(30); optimize(c, o, so); vAlarm(0);
                }
                s.clearLPReal(); modEvent(c, o, "clearLP", "{}");
             }
@@ -2053,7 +2059,7 @@ static void wlBasFile(Ctx& c, int nexec, int len)
    }
 }
 
-static int g_execIndex, g_nexec;
+static thread_local int g_execIndex, g_nexec;
 // ---------------------------------------------------------------- C12: numeric literals (GEN: the literals come from TLC)
 static bool readOneCoef(const std::string& fileText, const char* ext, int readMode, std::string& outRat, std::string& outReal, bool& ok)
 {
@@ -2199,7 +2205,8 @@ static void wlBasis(Ctx& c, int nexec, int len)
 
 static int runWorkload(Ctx& c, const std::string& wl, int len)
 {
-   if(wl == "mods") wlMods(c, 1, len, 0);
+   if(wl == "spin") { volatile double x = 0; for(long i = 0; i < (long)len * 100000000L; i++) x += 1e-9 * i; }   // C18 control: CPU load without any library call
+   else if(wl == "mods") wlMods(c, 1, len, 0);
    else if(wl == "mods2") { g_wellScaled = false; wlMods(c, 1, len, 1); }
    else if(wl == "certx") { g_exotic = true; wlCert(c, 1, len, 5, 0); }
    else if(wl == "certbigx") { g_exotic = true; wlCert(c, 1, len, 14, 0); }
@@ -2230,6 +2237,64 @@ static int runWorkload(Ctx& c, const std::string& wl, int len)
    return 0;
 }
 
+// ---------------------------------------------------------------- C18: the same work in K concurrent threads and alone
+// workload "threads:K:wlA+wlB+...": thread t runs workload number t mod n on its own objects with its own seed, trace and
+// scratch directory.  Phase A runs the K threads concurrently (released together by a barrier), phase B runs the same K
+// jobs one after the other, each in a fresh thread.  The per-thread traces of phase A go to the output (each is a sequence
+// of executions for TV_API), followed by an "alone" event that says whether the phase-B trace of the same job is identical.
+#include <thread>
+#include <atomic>
+static std::vector<std::string> splitStr(const std::string& s, char sep) { std::vector<std::string> r; std::string cur; for(char ch : s) { if(ch == sep) { r.push_back(cur); cur.clear(); } else cur += ch; } r.push_back(cur); return r; }
+static void threadJob(const std::string& wlspec, unsigned long seed, int len, const std::string& trace, const std::string& tmp, int e, int nexec, std::atomic<int>* gate, int K)
+{
+   g_tid = gate ? atoi(trace.substr(trace.rfind('t') + 1).c_str()) : 1000; g_threaded = true; g_wellScaled = true; g_exotic = false; g_execIndex = e; g_nexec = nexec;
+   std::string wl = wlspec; { size_t at = wl.find('@'); if(at != std::string::npos) { len = atoi(wl.c_str() + at + 1); wl = wl.substr(0, at); } }   // "workload@len"
+   g_tmpdir = tmp; { std::string cmd = "rm -rf '" + tmp + "' && mkdir -p '" + tmp + "'"; if(system(cmd.c_str()) != 0) return; }
+   T().f = fopen(trace.c_str(), "w"); if(!T().f) return;
+   setvbuf(T().f, nullptr, _IOLBF, 1 << 16);
+   if(gate) { gate->fetch_add(1); while(gate->load() < K) std::this_thread::yield(); }
+   Ctx c(seed);
+   // an exception that escapes the public API ends this thread's work (its trace ends in a Crash line, as in the
+   // single-threaded drivers) but not the work of the other threads
+   try { runWorkload(c, wl, len); }
+   catch(const std::exception& e) { std::string msg = std::string("exception: ") + e.what(); for(char& ch : msg) if(ch == '"' || ch == '\\' || ch < 0x20) ch = ' '; crashLine(msg.c_str()); }
+   catch(...) { crashLine("unknown exception (not derived from std::exception, e.g. soplex::SPxException)"); }
+   c.objs.clear();
+   T().close();
+}
+static int runThreads(const std::string& spec, unsigned long seed, int e, int nexec, int len, const std::string& out)
+{
+   std::vector<std::string> parts = splitStr(spec, ':');
+   if(parts.size() != 3) { fprintf(stderr, "threads:K:wl+wl+...\n"); return 2; }
+   int K = atoi(parts[1].c_str()); std::vector<std::string> wls = splitStr(parts[2], '+');
+   auto tr = [&](char ph, int t) { return out + "." + ph + std::to_string(t); };
+   auto tmp = [&](int t) { return out + ".d/t" + std::to_string(t); };
+   auto sd = [&](int t) { return (seed * 1000003UL + (unsigned long)e) * 131UL + (unsigned long)t; };
+   if(getenv("VERIF_ONLYT")) { int t = atoi(getenv("VERIF_ONLYT")); threadJob(wls[t % wls.size()], sd(t), len, tr('s', t), tmp(t), e, nexec, nullptr, K); return 0; }   // debugging: one job, on the main thread
+   {
+      std::atomic<int> gate(0); std::vector<std::thread> th;
+      for(int t = 0; t < K; t++) th.emplace_back(threadJob, wls[t % wls.size()], sd(t), len, tr('t', t), tmp(t), e, nexec, &gate, K);
+      for(auto& x : th) x.join();
+   }
+   for(int t = 0; t < K; t++) { std::thread x(threadJob, wls[t % wls.size()], sd(t), len, tr('s', t), tmp(t), e, nexec, (std::atomic<int>*)nullptr, K); x.join(); }
+   FILE* f = fopen(out.c_str(), "a"); if(!f) return 2;
+   for(int t = 0; t < K; t++)
+   {
+      std::ifstream a(tr('t', t)), b(tr('s', t)); std::string la, lb; long line = 0, diff = 0; bool same = true;
+      while(true)
+      {
+         bool ga = (bool)std::getline(a, la), gb = (bool)std::getline(b, lb); line++;
+         if(ga) { fputs(la.c_str(), f); fputc('\n', f); }
+         if(same && (ga != gb || (ga && la != lb))) { same = false; diff = line; }
+         if(!ga) break;
+      }
+      fprintf(f, "{\"a\":\"alone\",\"t\":%d,\"threads\":%d,\"wl\":\"%s\",\"same\":%s,\"line\":%ld}\n", t, K, wls[t % wls.size()].c_str(), same ? "true" : "false", diff);
+      if(same || !getenv("VERIF_KEEP")) { remove(tr('t', t).c_str()); remove(tr('s', t).c_str()); }
+   }
+   fclose(f);
+   return 0;
+}
+
 // every execution runs in its own child process: a crash ends that execution (its trace ends in a Crash line)
 // but not the remaining executions of the shard
 #include <sys/wait.h>
@@ -2251,6 +2316,14 @@ int main(int argc, char** argv)
       pid_t pid = nofork ? 0 : fork();
       if(pid == 0)
       {
+         if(wl.compare(0, 8, "threads:") == 0)
+         {
+            if(!nofork) { installCrashHandlers(); crashExitCode() = 3; }
+            int rc = runThreads(wl, seed, e, nexec, len, argv[5]);
+            if(!nofork) exit(rc);                            // exit, not _exit: ThreadSanitizer reports its verdict in the exit code
+            if(rc) return rc;
+            continue;
+         }
          T().f = fopen(argv[5], "a"); if(!T().f) _exit(2);
          setvbuf(T().f, nullptr, _IOLBF, 1 << 16);          // whole lines only: a dying process must not leave half an event behind
          if(!nofork) installCrashHandlers();
@@ -2268,6 +2341,28 @@ int main(int argc, char** argv)
       {
          int status = 0; waitpid(pid, &status, 0);
          if(WIFEXITED(status) && WEXITSTATUS(status) == 2) return 2;
+         if(wl.compare(0, 8, "threads:") == 0 && !(WIFEXITED(status) && WEXITSTATUS(status) == 0))
+         {
+            // the execution died in one of its threads: keep what the threads had logged (the dying thread's trace ends in a Crash line)
+            FILE* f = fopen(argv[5], "a"); bool crashLogged = false;
+            for(int t = 0; f && t < 64; t++)
+            {
+               std::string tn = std::string(argv[5]) + ".t" + std::to_string(t); std::ifstream a(tn); if(!a) continue; std::string la;
+               while(std::getline(a, la)) { if(la.compare(0, 12, "{\"a\":\"Crash\"") == 0) crashLogged = true; if(!la.empty() && la.back() == '}') { fputs(la.c_str(), f); fputc('\n', f); } }
+               remove(tn.c_str()); remove((std::string(argv[5]) + ".s" + std::to_string(t)).c_str());
+            }
+            if(f && !crashLogged && !(WIFEXITED(status) && WEXITSTATUS(status) == 66)) fprintf(f, "{\"a\":\"Reset\"}\n{\"a\":\"Crash\",\"what\":\"threaded execution ended abnormally\",\"during\":\"%s\"}\n", wl.c_str());
+            if(f) fclose(f);
+         }
+         if(WIFEXITED(status) && WEXITSTATUS(status) == 66)
+         {
+            // ThreadSanitizer reported something in this execution: its log (TSAN_OPTIONS log_path=<trace>.tsan) names what
+            std::string logf = std::string(argv[5]) + ".tsan." + std::to_string((long)pid), kinds, la; std::ifstream lg(logf);
+            while(std::getline(lg, la)) if(la.compare(0, 9, "SUMMARY: ") == 0) { std::string k = la.substr(9); size_t par = k.find(" ("); if(par != std::string::npos && k.find(" in ") != std::string::npos) k = k.substr(0, par) + k.substr(k.find(" in "));
+               for(char& ch : k) if(ch == '"' || ch == '\\' || (unsigned char)ch < 0x20) ch = ' '; if(kinds.find(k) == std::string::npos && kinds.size() < 1500) kinds += (kinds.empty() ? "" : "; ") + k; }
+            if(kinds.empty()) kinds = "ThreadSanitizer: report (see the .err / .tsan file next to the trace)";
+            FILE* f = fopen(argv[5], "a"); if(f) { fprintf(f, "{\"a\":\"Reset\"}\n{\"a\":\"Crash\",\"what\":\"%s\",\"during\":\"%s\"}\n", kinds.c_str(), wl.c_str()); fclose(f); }
+         }
          if(WIFSIGNALED(status)) { FILE* f = fopen(argv[5], "a"); if(f) { fprintf(f, "{\"a\":\"Crash\",\"what\":\"killed by signal %d\",\"during\":\"\"}\n", WTERMSIG(status)); fclose(f); } }
       }
       else return 2;
